@@ -1,3 +1,13 @@
+/-
+  Helper lemmas for property C04, item 7, the other direction: every JSON text of the grammar of
+  `Jmes/Spec/Lexical.lean` is accepted by the decoder of `Model/Json.lean`.
+
+  * `parseStringBody_complete` (strings; strong induction on the length, the decoder reads whole runes and surrogate
+    pairs where the grammar reads bytes and single `\uXXXX` escapes),
+  * `parseNumberTok_complete'` (numbers followed by a delimiter),
+  * `completeAt` (values / elements / members, strong induction on the length with explicit fuel and depth budgets),
+  * `decode_complete : JsonText s → s.length ≤ maxDepth → (Json.decode s).isSome`, `decode_isSome_iff`.
+-/
 import Jmes.Proofs.JsonGrammar
 namespace Jmes.JsonGrammar
 open Jmes Jmes.Utf8 Jmes.Lexical Jmes.Json Jmes.Literals
@@ -191,5 +201,375 @@ theorem parseStringBody_complete : ∀ (n : Nat) (b : Bytes), b.length ≤ n →
             exact parseStringBody_complete n w2 (by omega) hw2 f (by omega) rest _
           · exact cont _
       · exact cont _
+
+
+/-! ### numbers followed by something -/
+
+/-- what may follow a number without being absorbed into it -/
+def NumDelim (rest : Bytes) : Prop :=
+  ∀ b t, rest = b :: t → isDigitB b = false ∧ b ≠ 0x2E ∧ b ≠ 0x65 ∧ b ≠ 0x45
+
+theorem NumDelim.noDigit {rest : Bytes} (h : NumDelim rest) : NoDigitHead rest := fun b t e => (h b t e).1
+
+theorem expPart_complete' {e rest : Bytes} (h : JExp e) (hr : NumDelim rest) : expPart (e ++ rest) = some (e, rest) := by
+  rcases h with rfl | ⟨c, sg, ds, rfl, hc, hsg, hds⟩
+  · cases rest with
+    | nil => rfl
+    | cons b t =>
+      obtain ⟨_, _, h3, h4⟩ := hr b t rfl
+      simp [expPart, h3, h4]
+  · obtain ⟨d, t, rfl, hd, ht⟩ := digits_head hds
+    have hd' : 0x30 ≤ d ∧ d ≤ 0x39 := by simpa [isDigitB] using hd
+    have htd : takeDigits (d :: t ++ rest) = (d :: t, rest) := takeDigits_complete (d :: t) rest hds.2 hr.noDigit
+    unfold expPart
+    simp only [List.cons_append, hc, if_true]
+    rcases hsg with rfl | rfl | rfl
+    · simp only [List.nil_append, List.cons_append]
+      split
+      · rename_i heq; simp at heq; omega
+      · rename_i heq; simp at heq; omega
+      · simp only [List.cons_append] at htd
+        simp [htd]
+    · simp only [List.cons_append] at htd
+      simp [htd]
+    · simp only [List.cons_append] at htd
+      simp [htd]
+
+theorem parseNumberTok_complete' {n rest : Bytes} (h : JNumber n) (hr : NumDelim rest) :
+    parseNumberTok (n ++ rest) = some (n, rest) := by
+  obtain ⟨sg, i, f, e, rfl, hsg, hi, hf, he⟩ := h
+  rw [parseNumberTok_stages]
+  have hi0 : ∃ d t, i = d :: t ∧ 0x30 ≤ d ∧ d ≤ 0x39 := by
+    rcases hi with rfl | ⟨d, ds, rfl, h1, h2, _⟩
+    · exact ⟨0x30, [], rfl, by omega, by omega⟩
+    · exact ⟨d, ds, rfl, by omega, h2⟩
+  have hsign : signPart (sg ++ i ++ f ++ e ++ rest) = (sg, i ++ (f ++ (e ++ rest))) := by
+    obtain ⟨d, t, rfl, h1, h2⟩ := hi0
+    rcases hsg with rfl | rfl
+    · unfold signPart
+      simp only [List.nil_append, List.cons_append, List.append_assoc]
+      split
+      · rename_i heq; simp at heq; omega
+      · rfl
+    · simp [signPart]
+  -- what follows the exponent / the fraction / the integer part does not extend them
+  have he_rest : NoDigitHead (e ++ rest) ∧ ∀ t, e ++ rest ≠ 0x2E :: t := by
+    rcases he with rfl | ⟨c, sg', ds, rfl, hc, _, _⟩
+    · refine ⟨hr.noDigit, ?_⟩
+      intro t ht; exact (hr _ _ ht).2.1 rfl
+    · refine ⟨?_, ?_⟩
+      · intro b t h; simp at h; rcases hc with rfl | rfl <;> (rw [← h.1]; rfl)
+      · intro t h; simp at h; rcases hc with rfl | rfl <;> omega
+  have hf_rest : NoDigitHead (f ++ (e ++ rest)) := by
+    rcases hf with rfl | ⟨ds, rfl, _⟩
+    · exact he_rest.1
+    · intro b t h; simp at h; rw [← h.1]; rfl
+  rw [hsign]
+  simp only []
+  rw [intPart_complete hi hf_rest]
+  simp only []
+  rw [fracPart_complete hf he_rest.1 he_rest.2]
+  simp only []
+  rw [expPart_complete' he hr]
+
+
+/-! ### values -/
+
+/-- what may follow a value inside a JSON text -/
+def Delim (rest : Bytes) : Prop :=
+  rest = [] ∨ ∃ c t, rest = c :: t ∧ (isWsB c = true ∨ c = 0x2C ∨ c = 0x5D ∨ c = 0x7D)
+
+theorem Delim.num {rest : Bytes} (h : Delim rest) : NumDelim rest := by
+  intro b t e
+  rcases h with rfl | ⟨c, t', rfl, hc⟩
+  · cases e
+  · cases e
+    rcases hc with hc | rfl | rfl | rfl
+    · simp [isWsB] at hc
+      rcases hc with ((rfl | rfl) | rfl) | rfl <;> decide
+    all_goals decide
+
+theorem Delim.ws_append {w rest : Bytes} (hw : Ws w) (c : Nat) (hc : c = 0x2C ∨ c = 0x5D ∨ c = 0x7D) :
+    Delim (w ++ c :: rest) := by
+  cases w with
+  | nil => exact Or.inr ⟨c, rest, rfl, Or.inr hc⟩
+  | cons b t => exact Or.inr ⟨b, t ++ c :: rest, rfl, Or.inl (hw b (by simp))⟩
+
+theorem skipWs_ws_append : ∀ {w : Bytes} (s : Bytes), Ws w → skipWs (w ++ s) = skipWs s
+  | [], _, _ => rfl
+  | b :: w, s, hw => by
+    have hb : isWs b = true := by rw [isWs_eq]; exact hw b (by simp)
+    rw [List.cons_append, skipWs, if_pos hb]
+    exact skipWs_ws_append s (fun x hx => hw x (by simp [hx]))
+
+theorem skipWs_cons {c : Nat} (t : Bytes) (hc : isWs c = false) : skipWs (c :: t) = c :: t := by
+  simp [skipWs, hc]
+
+theorem parseValue_ws {w : Bytes} (hw : Ws w) (f d : Nat) (s : Bytes) :
+    parseValue (f + 1) d (w ++ s) = parseValue (f + 1) d s := by
+  rw [parseValue, parseValue, skipWs_ws_append s hw]
+
+theorem parseValue_null (f d : Nat) (rest : Bytes) :
+    parseValue (f + 1) d (0x6E :: 0x75 :: 0x6C :: 0x6C :: rest) = some (.null, rest) := by
+  simp [parseValue, skipWs, isWs]
+theorem parseValue_true (f d : Nat) (rest : Bytes) :
+    parseValue (f + 1) d (0x74 :: 0x72 :: 0x75 :: 0x65 :: rest) = some (.bool true, rest) := by
+  simp [parseValue, skipWs, isWs]
+theorem parseValue_false (f d : Nat) (rest : Bytes) :
+    parseValue (f + 1) d (0x66 :: 0x61 :: 0x6C :: 0x73 :: 0x65 :: rest) = some (.bool false, rest) := by
+  simp [parseValue, skipWs, isWs]
+
+theorem parseValue_arr (f d : Nat) (t : Bytes) :
+    parseValue (f + 1) d (0x5B :: t) =
+      if d + 1 > maxDepth then none
+      else match skipWs t with
+        | 0x5D :: r => some (.arr .plain [], r)
+        | _ => (parseElems f (d + 1) t []).map (fun (xs, r) => (Val.arr .plain xs, r)) := by
+  simp [parseValue, skipWs, isWs]
+  rfl
+
+theorem parseValue_obj (f d : Nat) (t : Bytes) :
+    parseValue (f + 1) d (0x7B :: t) =
+      if d + 1 > maxDepth then none
+      else match skipWs t with
+        | 0x7D :: r => some (.obj [], r)
+        | _ => (parseMembers f (d + 1) t []).map (fun (kvs, r) => (Val.obj kvs, r)) := by
+  simp [parseValue, skipWs, isWs]
+  rfl
+
+
+theorem jnumber_head {n : Bytes} (h : JNumber n) : ∃ b t, n = b :: t ∧ (b = 0x2D ∨ (0x30 ≤ b ∧ b ≤ 0x39)) := by
+  obtain ⟨sg, i, f, e, rfl, hsg, hi, _, _⟩ := h
+  rcases hsg with rfl | rfl
+  · rcases hi with rfl | ⟨d, ds, rfl, h1, h2, _⟩
+    · exact ⟨0x30, _, rfl, Or.inr (by omega)⟩
+    · exact ⟨d, _, rfl, Or.inr (by omega)⟩
+  · exact ⟨0x2D, _, rfl, Or.inl rfl⟩
+
+theorem jvalue_head {p : Bytes} (h : JValue p) :
+    ∃ c t, p = c :: t ∧ isWs c = false ∧ c ≠ 0x5D ∧ c ≠ 0x7D := by
+  cases h with
+  | null => exact ⟨_, _, rfl, by decide, by decide, by decide⟩
+  | «true» => exact ⟨_, _, rfl, by decide, by decide, by decide⟩
+  | «false» => exact ⟨_, _, rfl, by decide, by decide, by decide⟩
+  | num n hn =>
+    obtain ⟨b, t, rfl, hb⟩ := jnumber_head hn
+    refine ⟨b, t, rfl, ?_, ?_, ?_⟩
+    · simp [isWs]; omega
+    all_goals omega
+  | str b _ => exact ⟨_, _, rfl, by decide, by decide, by decide⟩
+  | arrEmpty w _ => exact ⟨_, _, rfl, by decide, by decide, by decide⟩
+  | arr es _ => exact ⟨_, _, rfl, by decide, by decide, by decide⟩
+  | objEmpty w _ => exact ⟨_, _, rfl, by decide, by decide, by decide⟩
+  | obj ms _ => exact ⟨_, _, rfl, by decide, by decide, by decide⟩
+
+theorem jvalue_length_pos {p : Bytes} (h : JValue p) : 0 < p.length := by
+  obtain ⟨c, t, rfl, _⟩ := jvalue_head h; simp
+
+/-- the three completeness statements for all texts of length at most `n` -/
+structure CompleteAt (n : Nat) : Prop where
+  value : ∀ p, p.length ≤ n → JValue p → ∀ fuel depth rest, Delim rest → 2 * p.length + 1 ≤ fuel →
+    depth + p.length ≤ maxDepth → ∃ v, parseValue fuel depth (p ++ rest) = some (v, rest)
+  elems : ∀ p, p.length ≤ n → JElems p → ∀ fuel depth rest acc, 2 * p.length ≤ fuel →
+    depth + p.length ≤ maxDepth → ∃ xs, parseElems fuel depth (p ++ rest) acc = some (xs, rest)
+  members : ∀ p, p.length ≤ n → JMembers p → ∀ fuel depth rest acc, 2 * p.length ≤ fuel →
+    depth + p.length ≤ maxDepth → ∃ kvs, parseMembers fuel depth (p ++ rest) acc = some (kvs, rest)
+
+theorem skipWs_ws_cons {w : Bytes} (hw : Ws w) (c : Nat) (t : Bytes) (hc : isWs c = false) :
+    skipWs (w ++ c :: t) = c :: t := by
+  rw [skipWs_ws_append _ hw, skipWs_cons t hc]
+
+theorem completeAt_zero : CompleteAt 0 where
+  value := by
+    intro p hp h; have := jvalue_length_pos h; omega
+  elems := by
+    intro p hp h
+    cases h <;> simp at hp
+  members := by
+    intro p hp h
+    cases h <;> simp at hp
+
+theorem completeAt_succ (n : Nat) (ih : CompleteAt n) : CompleteAt (n + 1) where
+  value := by
+    intro p hp h fuel depth rest hrest hfuel hdepth
+    obtain ⟨f, rfl⟩ : ∃ f, fuel = f + 1 := ⟨fuel - 1, by omega⟩
+    cases h with
+    | null => exact ⟨_, parseValue_null f depth rest⟩
+    | «true» => exact ⟨_, parseValue_true f depth rest⟩
+    | «false» => exact ⟨_, parseValue_false f depth rest⟩
+    | num m hm =>
+      obtain ⟨b, t, rfl, hb⟩ := jnumber_head hm
+      rw [List.cons_append, parseValue_number f depth b _ hb, ← List.cons_append,
+        parseNumberTok_complete' hm hrest.num]
+      exact ⟨_, rfl⟩
+    | str b hb =>
+      rw [List.cons_append, parseValue_string]
+      obtain ⟨out, ho⟩ := parseStringBody_complete b.length b (Nat.le_refl _) hb ((b ++ rest).length + 1)
+        (by simp; omega) rest []
+      rw [ho]
+      exact ⟨_, rfl⟩
+    | arrEmpty w hw =>
+      simp only [List.length_cons, List.length_append, List.length_nil] at hdepth
+      rw [List.cons_append, parseValue_arr, if_neg (by omega), List.append_assoc]
+      have : skipWs (w ++ ([0x5D] ++ rest)) = 0x5D :: rest := skipWs_ws_cons hw 0x5D rest (by decide)
+      rw [this]
+      exact ⟨_, rfl⟩
+    | arr es hes =>
+      simp only [List.length_cons] at hdepth hp hfuel
+      rw [List.cons_append, parseValue_arr, if_neg (by have := hdepth; omega)]
+      obtain ⟨xs, hxs⟩ := ih.elems es (by omega) hes f (depth + 1) rest [] (by omega) (by omega)
+      have hne : ∀ r, skipWs (es ++ rest) ≠ 0x5D :: r := by
+        intro r
+        cases hes with
+        | last w1 v w2 hw1 hv hw2 =>
+          obtain ⟨c, t, rfl, hc1, hc2, _⟩ := jvalue_head hv
+          simp only [List.append_assoc, List.cons_append]
+          rw [skipWs_ws_cons hw1 c _ hc1]
+          intro h; simp at h; omega
+        | cons w1 v w2 q hw1 hv hw2 hq =>
+          obtain ⟨c, t, rfl, hc1, hc2, _⟩ := jvalue_head hv
+          simp only [List.append_assoc, List.cons_append]
+          rw [skipWs_ws_cons hw1 c _ hc1]
+          intro h; simp at h; omega
+      split
+      · rename_i r heq; exact absurd heq (hne r)
+      · rw [hxs]; exact ⟨_, rfl⟩
+    | objEmpty w hw =>
+      simp only [List.length_cons, List.length_append, List.length_nil] at hdepth
+      rw [List.cons_append, parseValue_obj, if_neg (by omega), List.append_assoc]
+      have : skipWs (w ++ ([0x7D] ++ rest)) = 0x7D :: rest := skipWs_ws_cons hw 0x7D rest (by decide)
+      rw [this]
+      exact ⟨_, rfl⟩
+    | obj ms hms =>
+      simp only [List.length_cons] at hdepth hp hfuel
+      rw [List.cons_append, parseValue_obj, if_neg (by have := hdepth; omega)]
+      obtain ⟨xs, hxs⟩ := ih.members ms (by omega) hms f (depth + 1) rest [] (by omega) (by omega)
+      have hne : ∀ r, skipWs (ms ++ rest) ≠ 0x7D :: r := by
+        intro r
+        cases hms with
+        | last w1 k w2 w3 v w4 hw1 hk hw2 hw3 hv hw4 =>
+          simp only [List.append_assoc, List.cons_append]
+          rw [skipWs_ws_cons hw1 0x22 _ (by decide)]
+          intro h; simp at h
+        | cons w1 k w2 w3 v w4 q hw1 hk hw2 hw3 hv hw4 hq =>
+          simp only [List.append_assoc, List.cons_append]
+          rw [skipWs_ws_cons hw1 0x22 _ (by decide)]
+          intro h; simp at h
+      split
+      · rename_i r heq; exact absurd heq (hne r)
+      · rw [hxs]; exact ⟨_, rfl⟩
+  elems := by
+    intro p hp h fuel depth rest acc hfuel hdepth
+    cases h with
+    | last w1 v w2 hw1 hv hw2 =>
+      simp only [List.length_append, List.length_cons, List.length_nil] at hp hfuel hdepth
+      have hvpos := jvalue_length_pos hv
+      obtain ⟨f, rfl⟩ : ∃ f, fuel = f + 1 := ⟨fuel - 1, by omega⟩
+      obtain ⟨g, rfl⟩ : ∃ g, f = g + 1 := ⟨f - 1, by omega⟩
+      obtain ⟨val, hval⟩ := ih.value v (by omega) hv (g + 1) depth (w2 ++ 0x5D :: rest)
+        (Delim.ws_append hw2 0x5D (Or.inr (Or.inl rfl))) (by omega) (by omega)
+      have e : w1 ++ v ++ w2 ++ [0x5D] ++ rest = w1 ++ (v ++ (w2 ++ 0x5D :: rest)) := by simp
+      rw [e, parseElems, parseValue_ws hw1, hval]
+      simp only []
+      rw [skipWs_ws_cons hw2 0x5D rest (by decide)]
+      exact ⟨_, rfl⟩
+    | cons w1 v w2 q hw1 hv hw2 hq =>
+      simp only [List.length_append, List.length_cons] at hp hfuel hdepth
+      have hvpos := jvalue_length_pos hv
+      obtain ⟨f, rfl⟩ : ∃ f, fuel = f + 1 := ⟨fuel - 1, by omega⟩
+      obtain ⟨g, rfl⟩ : ∃ g, f = g + 1 := ⟨f - 1, by omega⟩
+      obtain ⟨val, hval⟩ := ih.value v (by omega) hv (g + 1) depth (w2 ++ 0x2C :: (q ++ rest))
+        (Delim.ws_append hw2 0x2C (Or.inl rfl)) (by omega) (by omega)
+      obtain ⟨xs, hxs⟩ := ih.elems q (by omega) hq (g + 1) depth rest (acc ++ [val]) (by omega) (by omega)
+      have e : w1 ++ v ++ w2 ++ 0x2C :: q ++ rest = w1 ++ (v ++ (w2 ++ 0x2C :: (q ++ rest))) := by simp
+      rw [e, parseElems, parseValue_ws hw1, hval]
+      simp only []
+      rw [skipWs_ws_cons hw2 0x2C _ (by decide)]
+      exact ⟨_, hxs⟩
+  members := by
+    intro p hp h fuel depth rest acc hfuel hdepth
+    cases h with
+    | last w1 k w2 w3 v w4 hw1 hk hw2 hw3 hv hw4 =>
+      simp only [List.length_append, List.length_cons, List.length_nil] at hp hfuel hdepth
+      have hvpos := jvalue_length_pos hv
+      obtain ⟨f, rfl⟩ : ∃ f, fuel = f + 1 := ⟨fuel - 1, by omega⟩
+      obtain ⟨g, rfl⟩ : ∃ g, f = g + 1 := ⟨f - 1, by omega⟩
+      obtain ⟨val, hval⟩ := ih.value v (by omega) hv (g + 1) depth (w4 ++ 0x7D :: rest)
+        (Delim.ws_append hw4 0x7D (Or.inr (Or.inr rfl))) (by omega) (by omega)
+      have e : w1 ++ 0x22 :: k ++ w2 ++ 0x3A :: w3 ++ v ++ w4 ++ [0x7D] ++ rest
+          = w1 ++ 0x22 :: (k ++ (w2 ++ 0x3A :: (w3 ++ (v ++ (w4 ++ 0x7D :: rest))))) := by simp
+      obtain ⟨key, hkey⟩ := parseStringBody_complete k.length k (Nat.le_refl _) hk
+        ((k ++ (w2 ++ 0x3A :: (w3 ++ (v ++ (w4 ++ 0x7D :: rest))))).length + 1) (by simp; omega)
+        (w2 ++ 0x3A :: (w3 ++ (v ++ (w4 ++ 0x7D :: rest)))) []
+      rw [e, parseMembers, skipWs_ws_cons hw1 0x22 _ (by decide)]
+      simp only []
+      rw [hkey]
+      simp only []
+      rw [skipWs_ws_cons hw2 0x3A _ (by decide)]
+      simp only []
+      rw [parseValue_ws hw3, hval]
+      simp only []
+      rw [skipWs_ws_cons hw4 0x7D rest (by decide)]
+      exact ⟨_, rfl⟩
+    | cons w1 k w2 w3 v w4 q hw1 hk hw2 hw3 hv hw4 hq =>
+      simp only [List.length_append, List.length_cons] at hp hfuel hdepth
+      have hvpos := jvalue_length_pos hv
+      obtain ⟨f, rfl⟩ : ∃ f, fuel = f + 1 := ⟨fuel - 1, by omega⟩
+      obtain ⟨g, rfl⟩ : ∃ g, f = g + 1 := ⟨f - 1, by omega⟩
+      obtain ⟨val, hval⟩ := ih.value v (by omega) hv (g + 1) depth (w4 ++ 0x2C :: (q ++ rest))
+        (Delim.ws_append hw4 0x2C (Or.inl rfl)) (by omega) (by omega)
+      have e : w1 ++ 0x22 :: k ++ w2 ++ 0x3A :: w3 ++ v ++ w4 ++ 0x2C :: q ++ rest
+          = w1 ++ 0x22 :: (k ++ (w2 ++ 0x3A :: (w3 ++ (v ++ (w4 ++ 0x2C :: (q ++ rest)))))) := by simp
+      obtain ⟨key, hkey⟩ := parseStringBody_complete k.length k (Nat.le_refl _) hk
+        ((k ++ (w2 ++ 0x3A :: (w3 ++ (v ++ (w4 ++ 0x2C :: (q ++ rest)))))).length + 1) (by simp; omega)
+        (w2 ++ 0x3A :: (w3 ++ (v ++ (w4 ++ 0x2C :: (q ++ rest))))) []
+      obtain ⟨xs, hxs⟩ := ih.members q (by omega) hq (g + 1) depth rest (objInsert key val acc) (by omega) (by omega)
+      rw [e, parseMembers, skipWs_ws_cons hw1 0x22 _ (by decide)]
+      simp only []
+      rw [hkey]
+      simp only []
+      rw [skipWs_ws_cons hw2 0x3A _ (by decide)]
+      simp only []
+      rw [parseValue_ws hw3, hval]
+      simp only []
+      rw [skipWs_ws_cons hw4 0x2C _ (by decide)]
+      exact ⟨_, hxs⟩
+
+theorem completeAt : ∀ n, CompleteAt n
+  | 0 => completeAt_zero
+  | n + 1 => completeAt_succ n (completeAt n)
+
+
+theorem Delim.of_ws {w : Bytes} (hw : Ws w) : Delim w := by
+  cases w with
+  | nil => exact Or.inl rfl
+  | cons b t => exact Or.inr ⟨b, t, rfl, Or.inl (hw b (by simp))⟩
+
+/-- **Completeness of the JSON decoder**: every JSON text (RFC 8259, on bytes) of at most `maxDepth` bytes — hence
+    of nesting depth at most `maxDepth` — is accepted. -/
+theorem decode_complete {s : Bytes} (h : JsonText s) (hlen : s.length ≤ maxDepth) : (Json.decode s).isSome = true := by
+  obtain ⟨w1, v, w2, rfl, hw1, hv, hw2⟩ := h
+  simp only [List.length_append] at hlen
+  obtain ⟨val, hval⟩ := (completeAt v.length).value v (Nat.le_refl _) hv (2 * (w1 ++ v ++ w2).length + 1 + 1) 0 w2
+    (Delim.of_ws hw2) (by simp; omega) (by omega)
+  unfold Json.decode
+  have e : w1 ++ v ++ w2 = w1 ++ (v ++ w2) := by simp
+  rw [show 2 * (w1 ++ v ++ w2).length + 2 = 2 * (w1 ++ v ++ w2).length + 1 + 1 from rfl]
+  rw [e] at hval ⊢
+  rw [parseValue_ws hw1, hval]
+  have : skipWs w2 = [] := by
+    have := skipWs_ws_append [] hw2
+    rw [List.append_nil] at this
+    rw [this]; rfl
+  simp [this]
+
+/-- with soundness: on texts of at most `maxDepth` bytes the decoder accepts exactly the JSON texts -/
+theorem decode_isSome_iff {s : Bytes} (hlen : s.length ≤ maxDepth) : (Json.decode s).isSome = true ↔ JsonText s := by
+  constructor
+  · intro h
+    cases hd : Json.decode s with
+    | none => rw [hd] at h; cases h
+    | some v => exact decode_sound hd
+  · intro h; exact decode_complete h hlen
 
 end Jmes.JsonGrammar
